@@ -1265,7 +1265,7 @@ func (fv *funcVerifier) evalBinary(st *State, x *ast.BinaryExpr) smt.Term {
 		l := fv.evalExpr(st, x.X)
 		r := fv.evalExpr(st, x.Y)
 		if isString(lt) {
-			fv.c.DeclareFun("str_lt", []string{StrSort, StrSort}, smt.Bool)
+			fv.declareStrLt()
 			switch x.Op {
 			case token.LSS:
 				return smt.App(smt.Bool, "str_lt", l, r)
@@ -1477,4 +1477,20 @@ func (fv *funcVerifier) strConcat(st *State, l, r smt.Term) smt.Term {
 	v := fv.c.Let("cat", smt.App(StrSort, "str_cat", l, r))
 	fv.assume(st, smt.Eq(smt.App(smt.Int, "str_len", v), smt.Add(smt.App(smt.Int, "str_len", l), smt.App(smt.Int, "str_len", r))))
 	return v
+}
+
+// declareStrLt declares the string order (Go's < on strings) with the facts that make it a
+// strict total order: irreflexive, asymmetric, total. (Transitivity is not axiomatised.)
+func (fv *funcVerifier) declareStrLt() {
+	if fv.c.Has("str_lt") {
+		return
+	}
+	fv.c.DeclareFun("str_lt", []string{StrSort, StrSort}, smt.Bool)
+	a, b := smt.Term{S: "sl_a", Sort: StrSort}, smt.Term{S: "sl_b", Sort: StrSort}
+	lt := smt.App(smt.Bool, "str_lt", a, b)
+	gt := smt.App(smt.Bool, "str_lt", b, a)
+	fv.c.Axiom("str_lt_total", smt.Forall([]smt.Term{a, b}, smt.And(
+		smt.Not(smt.And(lt, gt)),
+		smt.Or(smt.Eq(a, b), lt, gt),
+		smt.Implies(smt.Eq(a, b), smt.Not(lt))), lt), "str_lt")
 }
